@@ -1,8 +1,8 @@
 from _common import COMMON_NOTE
 
 META = {'title': 'The AY chip turns any register history into the sound its registers define',
- 'lean_modules': ['ZxVerif.Props.C18', 'ZxVerif.Props.C18Filter', 'ZxVerif.Props.C18X', 'ZxVerif.Props.C18Sys'],
- 'extract': ['AyTables'],
+ 'lean_modules': ['ZxVerif.Props.C18', 'ZxVerif.Props.C18Filter', 'ZxVerif.Props.C18X', 'ZxVerif.Props.C18Y', 'ZxVerif.Props.C18Sys'],
+ 'extract': ['AyTables', 'AyDispatch'],
  'modelled_code': ['aym/src/backends/precise.rs (integer core: ToneChannel/noise/envelope state, ENVELOPES, '
                    'ENVELOPE_RESET_TO_MAX, slide_up/slide_down/hold_*/reset_segment, update_tone/update_noise/'
                    'update_envelope/update_mixer incl. the DAC index, set_tone/set_noise/set_mixer/set_volume/'
